@@ -299,6 +299,15 @@ def execute(schedule, ctx):
         arrA = sorted(k for k, v in A.__dict__.items() if isinstance(v, np.ndarray))
         arrK = sorted(k for k, v in K.__dict__.items() if isinstance(v, np.ndarray))
         chk('no-extra-storage', arrA == arrK, {'extra': sorted(set(arrA) - set(arrK)), 'missing': sorted(set(arrK) - set(arrA)), 'when': when})
+        # ... and the object's own account of its storage agrees with the twin's
+        rep = {}
+        for attr in ('nbytes', 'size', 'names', 'index'):
+            try:
+                rep[attr] = (canon(getattr(A, attr)), canon(getattr(K, attr)))
+            except Exception as e:
+                rep[attr] = (type(e).__name__, None)
+        bad_ = sorted(k for k, (a_, k_) in rep.items() if a_ != k_)
+        chk('reported-storage-same-as-twin', not bad_, {'differs': {k: rep[k] for k in bad_}, 'when': when})
         chk('no-extra-attributes', list(A.__dict__['index']) == list(K.__dict__['index']), {'aliased': list(A.__dict__['index'])[:12], 'canonical': list(K.__dict__['index'])[:12], 'when': when})
 
     storage_ok('construction')
